@@ -18,8 +18,9 @@ Valid(bs, sh) == (sh.fault \/ sh.nfaults = 1) /\
                  ELSE sh.parts = "type"
 \* the definition is built operation by operation (so that -simulate can walk large spaces),
 \* then the client exchange runs on operation k
-Init == /\ \E bs \in {"document", "rpc"}, tr \in {SOAPHTTP, "http://example.com/other-transport"}, ty \in {"inline", "imported", "wsdl-import"} :
-             d = [tns |-> "urn:svc", bindingStyle |-> bs, location |-> "http://example.com/svc", transport |-> tr, types |-> ty, ops |-> <<>>]
+Init == /\ \E bs \in {"document", "rpc"}, tr \in {SOAPHTTP, "http://example.com/other-transport"}, ty \in {"inline", "imported", "wsdl-import"},
+              hf \in {"qualified", "unqualified"} : (hf = "qualified" \/ ty = "inline") /\
+             d = [tns |-> "urn:svc", bindingStyle |-> bs, location |-> "http://example.com/svc", transport |-> tr, types |-> ty, hdrForm |-> hf, ops |-> <<>>]
         /\ k = 0 /\ inputOk \in BOOLEAN
         /\ c = CInit(<< <<"x-user", "1">> >>)
 AddOp == /\ k = 0 /\ Len(d.ops) < MaxOps
